@@ -1,4 +1,456 @@
-import RaptorModel.Model.Strength
+import RaptorModel.Lemmas.StrengthLemmas
+import Mathlib.Algebra.Order.Field.Basic
+/-!
+# C14 — strength of connection
+
+The strength matrix keeps the diagonal of every non-empty row (stored first), contains only entries
+of `A` with their original values, and contains an off-diagonal entry exactly when it passes the
+documented threshold test (`Model/Strength.lean`: `classical`, `symmetric`).
+
+Most statements only use the order of `K` (the model compares, negates the sentinel and multiplies
+by `θ`); the compatibility of order and arithmetic (`IsStrictOrderedRing`) is needed only where the
+sentinel bound is stated with `|v| < big`.
+-/
 namespace Raptor.C14
-theorem placeholder : (1 : Nat) = 1 := rfl
+open Raptor.Strength
+
+/-- the column filter of `classical` for row `i` with `numVars` interleaved variables -/
+def sameVar (numVars i : Nat) : Nat → Bool :=
+  fun j => decide (numVars ≤ 1) || (i % numVars == j % numVars)
+
+theorem sameVar_iff (numVars i j : Nat) :
+    sameVar numVars i j = true ↔ numVars ≤ 1 ∨ i % numVars = j % numVars := by
+  simp [sameVar]
+
+theorem sameVar_scalar (numVars i j : Nat) (h : numVars ≤ 1) : sameVar numVars i j = true := by
+  simp [sameVar, h]
+
+section OrderOnly
+variable {K : Type} [Field K] [LinearOrder K]
+
+/-! ## 1. `rowScale` is the sentinel-started extreme -/
+
+theorem rowScale_neg_eq_max (big : K) (offs : List K) :
+    (∀ v ∈ offs, v ≤ rowScale true big offs) ∧ -big ≤ rowScale true big offs ∧
+      (rowScale true big offs = -big ∨ rowScale true big offs ∈ offs) :=
+  ⟨rowScale_true_ge_mem big offs, rowScale_true_ge_sentinel big offs,
+    rowScale_true_eq_or_mem big offs⟩
+
+theorem rowScale_pos_eq_min (big : K) (offs : List K) :
+    (∀ v ∈ offs, rowScale false big offs ≤ v) ∧ rowScale false big offs ≤ big ∧
+      (rowScale false big offs = big ∨ rowScale false big offs ∈ offs) :=
+  ⟨rowScale_false_le_mem big offs, rowScale_false_le_sentinel big offs,
+    rowScale_false_eq_or_mem big offs⟩
+
+/-- weak-bound form: the sentinel does not interfere as soon as every value is `≥ -big` -/
+theorem rowScale_true_of_ge (big : K) (offs : List K) (hne : offs ≠ [])
+    (hb : ∀ v ∈ offs, -big ≤ v) : IsGreatest {v | v ∈ offs} (rowScale true big offs) :=
+  rowScale_true_isGreatest big offs hne hb
+
+theorem rowScale_false_of_le (big : K) (offs : List K) (hne : offs ≠ [])
+    (hb : ∀ v ∈ offs, v ≤ big) : IsLeast {v | v ∈ offs} (rowScale false big offs) :=
+  rowScale_false_isLeast big offs hne hb
+
+/-- the same with core's `List.max?` -/
+theorem rowScale_true_eq_max? (big : K) (offs : List K) (hne : offs ≠ [])
+    (hb : ∀ v ∈ offs, -big ≤ v) : offs.max? = some (rowScale true big offs) := by
+  have h := rowScale_true_isGreatest big offs hne hb
+  exact List.max?_eq_some_iff.mpr ⟨h.1, fun b hb' => h.2 hb'⟩
+
+theorem rowScale_false_eq_min? (big : K) (offs : List K) (hne : offs ≠ [])
+    (hb : ∀ v ∈ offs, v ≤ big) : offs.min? = some (rowScale false big offs) := by
+  have h := rowScale_false_isLeast big offs hne hb
+  exact List.min?_eq_some_iff.mpr ⟨h.1, fun b hb' => h.2 hb'⟩
+
+/-! ## 2–4. one row of the classical measure -/
+
+/-- only entries of `A`, with their original values, in the original order -/
+theorem classicalRow_sublist (big θ : K) (i : Nat) (sv : Nat → Bool) (row : List (Nat × K)) :
+    (classicalRow big θ i sv row).Sublist row :=
+  Raptor.Strength.classicalRow_sublist big θ i sv row
+
+theorem classicalRow_mem (big θ : K) (i : Nat) (sv : Nat → Bool) (row : List (Nat × K))
+    (e : Nat × K) (he : e ∈ classicalRow big θ i sv row) : e ∈ row :=
+  (classicalRow_sublist big θ i sv row).subset he
+
+/-- no entry is duplicated -/
+theorem classicalRow_nodup (big θ : K) (i : Nat) (sv : Nat → Bool) (row : List (Nat × K))
+    (h : row.Nodup) : (classicalRow big θ i sv row).Nodup :=
+  (classicalRow_sublist big θ i sv row).nodup h
+
+/-- no column is duplicated -/
+theorem classicalRow_cols_nodup (big θ : K) (i : Nat) (sv : Nat → Bool) (row : List (Nat × K))
+    (h : (row.map (·.1)).Nodup) : ((classicalRow big θ i sv row).map (·.1)).Nodup :=
+  ((classicalRow_sublist big θ i sv row).map _).nodup h
+
+/-- the diagonal of a non-empty row that stores it first is kept, with its value -/
+theorem classicalRow_diag_kept (big θ : K) (i : Nat) (sv : Nat → Bool) (d : K)
+    (rest : List (Nat × K)) :
+    classicalRow big θ i sv ((i, d) :: rest) =
+      (i, d) :: ((rest.filter fun e => sv e.1).filter fun e =>
+        passes (decide (d < 0))
+          (rowScale (decide (d < 0)) big ((rest.filter fun e => sv e.1).map (·.2)) * θ) e.2) :=
+  classicalRow_diag_first big θ i sv d rest
+
+theorem classicalRow_head (big θ : K) (i : Nat) (sv : Nat → Bool) (d : K)
+    (rest : List (Nat × K)) : (classicalRow big θ i sv ((i, d) :: rest)).head? = some (i, d) := by
+  rw [classicalRow_diag_kept]; rfl
+
+/-- **the threshold test**, written as the model computes it -/
+theorem classicalRow_mem_iff (big θ : K) (i : Nat) (sv : Nat → Bool) (d : K)
+    (rest : List (Nat × K)) (e : Nat × K) (he : e ∈ rest) :
+    e ∈ (classicalRow big θ i sv ((i, d) :: rest)).tail ↔
+      sv e.1 = true ∧
+        (if d < 0 then rowScale true big ((rest.filter fun x => sv x.1).map (·.2)) * θ < e.2
+         else e.2 < rowScale false big ((rest.filter fun x => sv x.1).map (·.2)) * θ) := by
+  rw [classicalRow_diag_kept, List.tail_cons, List.mem_filter, List.mem_filter]
+  by_cases hd : d < 0 <;> simp [hd, he, passes]
+
+/-- bounded corollary, negative diagonal: the threshold is `θ * max` of the candidate values -/
+theorem classicalRow_mem_iff_max (big θ : K) (i : Nat) (sv : Nat → Bool) (d : K)
+    (rest : List (Nat × K)) (e : Nat × K) (he : e ∈ rest) (hd : d < 0)
+    (hb : ∀ x ∈ rest, sv x.1 = true → -big ≤ x.2) (M : K)
+    (hM : IsGreatest {v | v ∈ (rest.filter fun x => sv x.1).map (·.2)} M) :
+    e ∈ (classicalRow big θ i sv ((i, d) :: rest)).tail ↔ sv e.1 = true ∧ θ * M < e.2 := by
+  have hne : (rest.filter fun x => sv x.1).map (·.2) ≠ [] := List.ne_nil_of_mem hM.1
+  have hb' : ∀ v ∈ (rest.filter fun x => sv x.1).map (·.2), -big ≤ v := by
+    intro v hv
+    obtain ⟨x, hx, rfl⟩ := List.mem_map.mp hv
+    obtain ⟨hx1, hx2⟩ := List.mem_filter.mp hx
+    exact hb x hx1 hx2
+  have hEq : rowScale true big ((rest.filter fun x => sv x.1).map (·.2)) = M :=
+    (rowScale_true_isGreatest big _ hne hb').unique hM
+  rw [classicalRow_mem_iff big θ i sv d rest e he, if_pos hd, hEq, mul_comm]
+
+/-- bounded corollary, non-negative diagonal: the threshold is `θ * min` of the candidate values -/
+theorem classicalRow_mem_iff_min (big θ : K) (i : Nat) (sv : Nat → Bool) (d : K)
+    (rest : List (Nat × K)) (e : Nat × K) (he : e ∈ rest) (hd : ¬ d < 0)
+    (hb : ∀ x ∈ rest, sv x.1 = true → x.2 ≤ big) (m : K)
+    (hm : IsLeast {v | v ∈ (rest.filter fun x => sv x.1).map (·.2)} m) :
+    e ∈ (classicalRow big θ i sv ((i, d) :: rest)).tail ↔ sv e.1 = true ∧ e.2 < θ * m := by
+  have hne : (rest.filter fun x => sv x.1).map (·.2) ≠ [] := List.ne_nil_of_mem hm.1
+  have hb' : ∀ v ∈ (rest.filter fun x => sv x.1).map (·.2), v ≤ big := by
+    intro v hv
+    obtain ⟨x, hx, rfl⟩ := List.mem_map.mp hv
+    obtain ⟨hx1, hx2⟩ := List.mem_filter.mp hx
+    exact hb x hx1 hx2
+  have hEq : rowScale false big ((rest.filter fun x => sv x.1).map (·.2)) = m :=
+    (rowScale_false_isLeast big _ hne hb').unique hm
+  rw [classicalRow_mem_iff big θ i sv d rest e he, if_neg hd, hEq, mul_comm]
+
+/-- both signs at once, without the sentinel: `M`/`m` are the greatest/least candidate value -/
+theorem classicalRow_mem_iff_extreme (big θ : K) (i : Nat) (sv : Nat → Bool) (d : K)
+    (rest : List (Nat × K)) (e : Nat × K) (he : e ∈ rest)
+    (hb : ∀ x ∈ rest, sv x.1 = true → -big ≤ x.2 ∧ x.2 ≤ big) (M m : K)
+    (hM : IsGreatest {v | v ∈ (rest.filter fun x => sv x.1).map (·.2)} M)
+    (hm : IsLeast {v | v ∈ (rest.filter fun x => sv x.1).map (·.2)} m) :
+    e ∈ (classicalRow big θ i sv ((i, d) :: rest)).tail ↔
+      sv e.1 = true ∧ (if d < 0 then θ * M < e.2 else e.2 < θ * m) := by
+  by_cases hd : d < 0
+  · rw [if_pos hd]
+    exact classicalRow_mem_iff_max big θ i sv d rest e he hd (fun x hx h => (hb x hx h).1) M hM
+  · rw [if_neg hd]
+    exact classicalRow_mem_iff_min big θ i sv d rest e he hd (fun x hx h => (hb x hx h).2) m hm
+
+/-! ## 5. the classical strength matrix -/
+
+theorem classical_length (big θ : K) (numVars : Nat) (rows : List (List (Nat × K))) :
+    (classical big θ numVars rows).length = rows.length :=
+  Raptor.Strength.classical_length big θ numVars rows
+
+/-- row `i` of `classical` is `classicalRow` of row `i` of `A` -/
+theorem classical_row (big θ : K) (numVars : Nat) (rows : List (List (Nat × K))) (i : Nat)
+    (hi : i < rows.length) :
+    (classical big θ numVars rows)[i]'(by rw [classical_length]; exact hi) =
+      classicalRow big θ i (sameVar numVars i) rows[i] :=
+  classical_getElem big θ numVars rows i hi
+
+theorem classical_row_sublist (big θ : K) (numVars : Nat) (rows : List (List (Nat × K))) (i : Nat)
+    (hi : i < rows.length) :
+    ((classical big θ numVars rows)[i]'(by rw [classical_length]; exact hi)).Sublist rows[i] := by
+  rw [classical_row big θ numVars rows i hi]
+  exact classicalRow_sublist _ _ _ _ _
+
+/-- every stored entry of the strength matrix is an entry of `A` with the same value -/
+theorem classical_entry_of_A (big θ : K) (numVars : Nat) (rows : List (List (Nat × K))) (i : Nat)
+    (hi : i < rows.length) (e : Nat × K)
+    (he : e ∈ (classical big θ numVars rows)[i]'(by rw [classical_length]; exact hi)) :
+    e ∈ rows[i] :=
+  (classical_row_sublist big θ numVars rows i hi).subset he
+
+theorem classical_diag_kept (big θ : K) (numVars : Nat) (rows : List (List (Nat × K))) (i : Nat)
+    (hi : i < rows.length) (d : K) (rest : List (Nat × K)) (hrow : rows[i] = (i, d) :: rest) :
+    ∃ kept, (classical big θ numVars rows)[i]'(by rw [classical_length]; exact hi) = (i, d) :: kept
+      ∧ kept.Sublist rest := by
+  rw [classical_row big θ numVars rows i hi, hrow, classicalRow_diag_kept]
+  exact ⟨_, rfl, List.Sublist.trans List.filter_sublist List.filter_sublist⟩
+
+theorem classical_mem_iff (big θ : K) (numVars : Nat) (rows : List (List (Nat × K))) (i : Nat)
+    (hi : i < rows.length) (d : K) (rest : List (Nat × K)) (hrow : rows[i] = (i, d) :: rest)
+    (e : Nat × K) (he : e ∈ rest) :
+    e ∈ ((classical big θ numVars rows)[i]'(by rw [classical_length]; exact hi)).tail ↔
+      (numVars ≤ 1 ∨ i % numVars = e.1 % numVars) ∧
+        (if d < 0 then
+          rowScale true big ((rest.filter fun x => sameVar numVars i x.1).map (·.2)) * θ < e.2
+         else
+          e.2 < rowScale false big ((rest.filter fun x => sameVar numVars i x.1).map (·.2)) * θ) := by
+  rw [classical_row big θ numVars rows i hi, hrow, classicalRow_mem_iff big θ i _ d rest e he,
+    sameVar_iff]
+
+/-- bounded form, no sentinel: `M`/`m` are the greatest/least value among the candidates (the
+    off-diagonals of row `i` in columns of the same variable). Such `M`, `m` exist iff there is at
+    least one candidate. -/
+theorem classical_mem_iff_extreme (big θ : K) (numVars : Nat) (rows : List (List (Nat × K)))
+    (i : Nat) (hi : i < rows.length) (d : K) (rest : List (Nat × K))
+    (hrow : rows[i] = (i, d) :: rest) (e : Nat × K) (he : e ∈ rest)
+    (hb : ∀ x ∈ rest, sameVar numVars i x.1 = true → -big ≤ x.2 ∧ x.2 ≤ big) (M m : K)
+    (hM : IsGreatest {v | v ∈ (rest.filter fun x => sameVar numVars i x.1).map (·.2)} M)
+    (hm : IsLeast {v | v ∈ (rest.filter fun x => sameVar numVars i x.1).map (·.2)} m) :
+    e ∈ ((classical big θ numVars rows)[i]'(by rw [classical_length]; exact hi)).tail ↔
+      (numVars ≤ 1 ∨ i % numVars = e.1 % numVars) ∧
+        (if d < 0 then θ * M < e.2 else e.2 < θ * m) := by
+  rw [classical_row big θ numVars rows i hi, hrow,
+    classicalRow_mem_iff_extreme big θ i _ d rest e he hb M m hM hm, sameVar_iff]
+
+omit [Field K] in
+/-- the hypotheses `hM`, `hm` of `classical_mem_iff_extreme` can be met as soon as row `i` has at
+    least one candidate -/
+theorem classical_extremes_exist (numVars i : Nat) (rest : List (Nat × K)) (x : Nat × K)
+    (hx : x ∈ rest) (hsv : sameVar numVars i x.1 = true) :
+    (∃ M, IsGreatest {v | v ∈ (rest.filter fun x => sameVar numVars i x.1).map (·.2)} M) ∧
+      (∃ m, IsLeast {v | v ∈ (rest.filter fun x => sameVar numVars i x.1).map (·.2)} m) := by
+  have hne : (rest.filter fun x => sameVar numVars i x.1).map (·.2) ≠ [] :=
+    List.ne_nil_of_mem (List.mem_map_of_mem (List.mem_filter.mpr ⟨hx, hsv⟩))
+  exact ⟨exists_isGreatest_of_ne_nil _ hne, exists_isLeast_of_ne_nil _ hne⟩
+
+/-- the same with core's `List.max?` / `List.min?` of the candidate values -/
+theorem classical_mem_iff_max_min (big θ : K) (numVars : Nat) (rows : List (List (Nat × K)))
+    (i : Nat) (hi : i < rows.length) (d : K) (rest : List (Nat × K))
+    (hrow : rows[i] = (i, d) :: rest) (e : Nat × K) (he : e ∈ rest)
+    (hb : ∀ x ∈ rest, sameVar numVars i x.1 = true → -big ≤ x.2 ∧ x.2 ≤ big) (M m : K)
+    (hM : ((rest.filter fun x => sameVar numVars i x.1).map (·.2)).max? = some M)
+    (hm : ((rest.filter fun x => sameVar numVars i x.1).map (·.2)).min? = some m) :
+    e ∈ ((classical big θ numVars rows)[i]'(by rw [classical_length]; exact hi)).tail ↔
+      (numVars ≤ 1 ∨ i % numVars = e.1 % numVars) ∧
+        (if d < 0 then θ * M < e.2 else e.2 < θ * m) := by
+  have hM' := List.max?_eq_some_iff.mp hM
+  have hm' := List.min?_eq_some_iff.mp hm
+  exact classical_mem_iff_extreme big θ numVars rows i hi d rest hrow e he hb M m
+    ⟨hM'.1, fun v hv => hM'.2 v hv⟩ ⟨hm'.1, fun v hv => hm'.2 v hv⟩
+
+/-! ## 6. the symmetric strength matrix -/
+
+theorem symmetric_length (big θ : K) (rows : List (List (Nat × K))) :
+    (symmetric big θ rows).length = rows.length :=
+  Raptor.Strength.symmetric_length big θ rows
+
+theorem symmetric_row_sublist (big θ : K) (rows : List (List (Nat × K))) (i : Nat)
+    (hi : i < rows.length) :
+    ((symmetric big θ rows)[i]'(by rw [symmetric_length]; exact hi)).Sublist rows[i] := by
+  rw [symmetric_getElem big θ rows i hi]
+  exact symmetricRow_sublist _ _ _ _ _
+
+theorem symmetric_entry_of_A (big θ : K) (rows : List (List (Nat × K))) (i : Nat)
+    (hi : i < rows.length) (e : Nat × K)
+    (he : e ∈ (symmetric big θ rows)[i]'(by rw [symmetric_length]; exact hi)) : e ∈ rows[i] :=
+  (symmetric_row_sublist big θ rows i hi).subset he
+
+theorem symmetric_diag_kept (big θ : K) (rows : List (List (Nat × K))) (i : Nat)
+    (hi : i < rows.length) (d : K) (rest : List (Nat × K)) (hrow : rows[i] = (i, d) :: rest) :
+    ∃ kept, (symmetric big θ rows)[i]'(by rw [symmetric_length]; exact hi) = (i, d) :: kept
+      ∧ kept.Sublist rest := by
+  rw [symmetric_getElem big θ rows i hi, hrow, symmetricRow_diag_first]
+  exact ⟨_, rfl, List.filter_sublist⟩
+
+/-- **the symmetric test**: kept iff it passes the test of its row or of its column's row -/
+theorem symmetric_mem_iff (big θ : K) (rows : List (List (Nat × K))) (i : Nat)
+    (hi : i < rows.length) (d : K) (rest : List (Nat × K)) (hrow : rows[i] = (i, d) :: rest)
+    (e : Nat × K) (he : e ∈ rest) (hj : e.1 < rows.length) (hne : rows[e.1] ≠ []) :
+    e ∈ ((symmetric big θ rows)[i]'(by rw [symmetric_length]; exact hi)).tail ↔
+      passes (rowInfo big θ i rows[i]).1 (rowInfo big θ i rows[i]).2 e.2 = true ∨
+        passes (rowInfo big θ e.1 rows[e.1]).1 (rowInfo big θ e.1 rows[e.1]).2 e.2 = true := by
+  have h1 := infoTable_getD big θ rows i hi (by rw [hrow]; exact List.cons_ne_nil _ _)
+  have h2 := infoTable_getD big θ rows e.1 hj hne
+  rw [symmetric_getElem big θ rows i hi]
+  rw [hrow] at h1 ⊢
+  rw [symmetricRow_diag_first, List.tail_cons, List.mem_filter, h1, h2, Bool.or_eq_true]
+  exact and_iff_right he
+
+theorem rowInfo_diag_first (big θ : K) (k : Nat) (d : K) (rest : List (Nat × K)) :
+    rowInfo big θ k ((k, d) :: rest) =
+      (decide (d < 0), rowScale (decide (d < 0)) big (rest.map (·.2)) * θ) := by
+  simp [rowInfo, splitDiag]
+
+/-- the test of one row, spelled out -/
+theorem passes_rowInfo_iff (big θ : K) (k : Nat) (d : K) (rest : List (Nat × K)) (v : K) :
+    passes (rowInfo big θ k ((k, d) :: rest)).1 (rowInfo big θ k ((k, d) :: rest)).2 v = true ↔
+      (if d < 0 then rowScale true big (rest.map (·.2)) * θ < v
+       else v < rowScale false big (rest.map (·.2)) * θ) := by
+  rw [rowInfo_diag_first]
+  by_cases hd : d < 0 <;> simp [hd, passes]
+
+/-- `symmetric_mem_iff` with both thresholds spelled out -/
+theorem symmetric_mem_iff_thresholds (big θ : K) (rows : List (List (Nat × K))) (i : Nat)
+    (hi : i < rows.length) (d : K) (rest : List (Nat × K)) (hrow : rows[i] = (i, d) :: rest)
+    (e : Nat × K) (he : e ∈ rest) (hj : e.1 < rows.length) (d' : K) (rest' : List (Nat × K))
+    (hrow' : rows[e.1] = (e.1, d') :: rest') :
+    e ∈ ((symmetric big θ rows)[i]'(by rw [symmetric_length]; exact hi)).tail ↔
+      (if d < 0 then rowScale true big (rest.map (·.2)) * θ < e.2
+       else e.2 < rowScale false big (rest.map (·.2)) * θ) ∨
+      (if d' < 0 then rowScale true big (rest'.map (·.2)) * θ < e.2
+       else e.2 < rowScale false big (rest'.map (·.2)) * θ) := by
+  rw [symmetric_mem_iff big θ rows i hi d rest hrow e he hj (by rw [hrow']; exact List.cons_ne_nil _ _),
+    hrow, hrow', passes_rowInfo_iff, passes_rowInfo_iff]
+
+/-! ## 7. sanity: `θ = 0` and `θ = 1` -/
+
+/-- `θ = 0`, positive diagonal, negative off-diagonals: every candidate is kept -/
+theorem classicalRow_theta_zero_keeps_negative (big : K) (i : Nat) (sv : Nat → Bool) (d : K)
+    (rest : List (Nat × K)) (hd : 0 < d) (hneg : ∀ e ∈ rest, e.2 < 0) :
+    classicalRow big 0 i sv ((i, d) :: rest) = (i, d) :: rest.filter fun e => sv e.1 := by
+  rw [classicalRow_diag_kept]
+  congr 1
+  apply List.filter_eq_self.mpr
+  intro e he
+  have hd' : ¬ d < 0 := lt_asymm hd
+  simp only [passes, hd', decide_false, mul_zero, Bool.false_eq_true, if_false, decide_eq_true_eq]
+  exact hneg e (List.mem_filter.mp he).1
+
+theorem classical_theta_zero_keeps_negative (big : K) (numVars : Nat)
+    (rows : List (List (Nat × K))) (i : Nat) (hi : i < rows.length) (d : K)
+    (rest : List (Nat × K)) (hrow : rows[i] = (i, d) :: rest) (hd : 0 < d)
+    (hneg : ∀ e ∈ rest, e.2 < 0) :
+    (classical big 0 numVars rows)[i]'(by rw [classical_length]; exact hi) =
+      (i, d) :: rest.filter fun e => sameVar numVars i e.1 := by
+  rw [classical_row big 0 numVars rows i hi, hrow,
+    classicalRow_theta_zero_keeps_negative big i _ d rest hd hneg]
+
+/-- scalar problem: the whole row is kept -/
+theorem classical_theta_zero_keeps_row (big : K) (numVars : Nat) (hnv : numVars ≤ 1)
+    (rows : List (List (Nat × K))) (i : Nat) (hi : i < rows.length) (d : K)
+    (rest : List (Nat × K)) (hrow : rows[i] = (i, d) :: rest) (hd : 0 < d)
+    (hneg : ∀ e ∈ rest, e.2 < 0) :
+    (classical big 0 numVars rows)[i]'(by rw [classical_length]; exact hi) = rows[i] := by
+  rw [classical_theta_zero_keeps_negative big numVars rows i hi d rest hrow hd hneg, hrow]
+  congr 1
+  exact List.filter_eq_self.mpr fun e _ => sameVar_scalar numVars i e.1 hnv
+
+/-- `θ = 1`: comparisons are strict, so nothing can beat the extreme — no off-diagonal is kept -/
+theorem classicalRow_theta_one_keeps_none (big : K) (i : Nat) (sv : Nat → Bool) (d : K)
+    (rest : List (Nat × K)) : classicalRow big 1 i sv ((i, d) :: rest) = [(i, d)] := by
+  rw [classicalRow_diag_kept]
+  congr 1
+  apply List.filter_eq_nil_iff.mpr
+  intro e he
+  have hv : e.2 ∈ (rest.filter fun x => sv x.1).map (·.2) := List.mem_map_of_mem he
+  by_cases hd : d < 0
+  · have := rowScale_true_ge_mem big _ e.2 hv
+    simp only [passes, hd, decide_true, if_true, mul_one, decide_eq_true_eq]
+    exact not_lt.mpr this
+  · have := rowScale_false_le_mem big _ e.2 hv
+    simp only [passes, hd, decide_false, Bool.false_eq_true, if_false, mul_one, decide_eq_true_eq]
+    exact not_lt.mpr this
+
+/-- `θ = 1`: an entry equal to the extreme of its row is NOT kept -/
+theorem classical_theta_one_strict (big : K) (numVars : Nat) (rows : List (List (Nat × K)))
+    (i : Nat) (hi : i < rows.length) (d : K) (rest : List (Nat × K))
+    (hrow : rows[i] = (i, d) :: rest) (e : Nat × K)
+    (_hext : e.2 = rowScale (decide (d < 0)) big
+      ((rest.filter fun x => sameVar numVars i x.1).map (·.2))) :
+    e ∉ ((classical big 1 numVars rows)[i]'(by rw [classical_length]; exact hi)).tail := by
+  rw [classical_row big 1 numVars rows i hi, hrow, classicalRow_theta_one_keeps_none]
+  exact List.not_mem_nil
+
+/-- in fact with `θ = 1` only the diagonal survives -/
+theorem classical_theta_one_only_diag (big : K) (numVars : Nat) (rows : List (List (Nat × K)))
+    (i : Nat) (hi : i < rows.length) (d : K) (rest : List (Nat × K))
+    (hrow : rows[i] = (i, d) :: rest) :
+    (classical big 1 numVars rows)[i]'(by rw [classical_length]; exact hi) = [(i, d)] := by
+  rw [classical_row big 1 numVars rows i hi, hrow, classicalRow_theta_one_keeps_none]
+
+/-- general `θ`: an entry equal to the threshold itself is not kept (strict comparison) -/
+theorem classicalRow_threshold_not_kept (big θ : K) (i : Nat) (sv : Nat → Bool) (d : K)
+    (rest : List (Nat × K)) (e : Nat × K) (he : e ∈ rest)
+    (heq : e.2 = rowScale (decide (d < 0)) big ((rest.filter fun x => sv x.1).map (·.2)) * θ) :
+    e ∉ (classicalRow big θ i sv ((i, d) :: rest)).tail := by
+  rw [classicalRow_mem_iff big θ i sv d rest e he]
+  rintro ⟨_, h⟩
+  by_cases hd : d < 0
+  · rw [if_pos hd] at h
+    simp only [hd, decide_true] at heq
+    exact absurd h (heq ▸ lt_irrefl _)
+  · rw [if_neg hd] at h
+    simp only [hd, decide_false] at heq
+    exact absurd h (heq ▸ lt_irrefl _)
+
+end OrderOnly
+
+section Bounded
+variable {K : Type} [Field K] [LinearOrder K] [IsStrictOrderedRing K]
+
+/-- if every `|v| < big` and `offs ≠ []` the result is the true maximum of `offs` -/
+theorem rowScale_true_of_bounded (big : K) (offs : List K) (hne : offs ≠ [])
+    (hb : ∀ v ∈ offs, |v| < big) : IsGreatest {v | v ∈ offs} (rowScale true big offs) :=
+  rowScale_true_of_ge big offs hne fun v hv => (abs_lt.mp (hb v hv)).1.le
+
+/-- if every `|v| < big` and `offs ≠ []` the result is the true minimum of `offs` -/
+theorem rowScale_false_of_bounded (big : K) (offs : List K) (hne : offs ≠ [])
+    (hb : ∀ v ∈ offs, |v| < big) : IsLeast {v | v ∈ offs} (rowScale false big offs) :=
+  rowScale_false_of_le big offs hne fun v hv => (abs_lt.mp (hb v hv)).2.le
+
+/-- `classical_mem_iff_extreme` with the bound stated as `|v| < big` -/
+theorem classical_mem_iff_extreme_abs (big θ : K) (numVars : Nat) (rows : List (List (Nat × K)))
+    (i : Nat) (hi : i < rows.length) (d : K) (rest : List (Nat × K))
+    (hrow : rows[i] = (i, d) :: rest) (e : Nat × K) (he : e ∈ rest)
+    (hb : ∀ x ∈ rest, sameVar numVars i x.1 = true → |x.2| < big) (M m : K)
+    (hM : IsGreatest {v | v ∈ (rest.filter fun x => sameVar numVars i x.1).map (·.2)} M)
+    (hm : IsLeast {v | v ∈ (rest.filter fun x => sameVar numVars i x.1).map (·.2)} m) :
+    e ∈ ((classical big θ numVars rows)[i]'(by rw [classical_length]; exact hi)).tail ↔
+      (numVars ≤ 1 ∨ i % numVars = e.1 % numVars) ∧
+        (if d < 0 then θ * M < e.2 else e.2 < θ * m) :=
+  classical_mem_iff_extreme big θ numVars rows i hi d rest hrow e he
+    (fun x hx h => ⟨(abs_lt.mp (hb x hx h)).1.le, (abs_lt.mp (hb x hx h)).2.le⟩) M m hM hm
+
+end Bounded
+
+/-! ## examples (exact rationals, `θ = 1/2`, `big = 1000`) -/
+section Examples
+
+/-- a 3×3 M-matrix-like example; note `(2, -1)` in row 0 equals the threshold and is dropped -/
+def exA : List (List (Nat × Rat)) :=
+  [[(0, 4), (1, -2), (2, -1)],
+   [(1, 4), (0, -2), (2, -3)],
+   [(2, 4), (0, -5/4), (1, -3)]]
+
+example : classical (1000 : Rat) (1/2) 1 exA =
+    [[(0, 4), (1, -2)],
+     [(1, 4), (0, -2), (2, -3)],
+     [(2, 4), (1, -3)]] := by decide +kernel
+
+/-- `(0, -5/4)` of row 2 fails its own test (`< -3/2`) but passes the test of row 0 (`< -1`) -/
+example : symmetric (1000 : Rat) (1/2) exA =
+    [[(0, 4), (1, -2)],
+     [(1, 4), (0, -2), (2, -3)],
+     [(2, 4), (0, -5/4), (1, -3)]] := by decide +kernel
+
+/-- negative diagonal: the maximum is used and the comparison flips -/
+example : classical (1000 : Rat) (1/2) 1 [[(0, -4), (1, 2), (2, 1)], [(1, -4), (0, 3)], []] =
+    [[(0, -4), (1, 2)], [(1, -4), (0, 3)], []] := by decide +kernel
+
+/-- two interleaved variables: only columns of the same parity are candidates -/
+example : classical (1000 : Rat) (1/2) 2
+    [[(0, 4), (1, -8), (2, -1)], [(1, 4), (0, -8), (2, -1)], [(2, 4), (0, -1), (1, -8)]] =
+    [[(0, 4), (2, -1)], [(1, 4)], [(2, 4), (0, -1)]] := by decide +kernel
+
+/-- over `Int`, `θ = 1`: only the diagonal survives (strict comparisons) -/
+example : classical (1000 : Int) 1 1 [[(0, 4), (1, -2), (2, -1)], [(1, 4), (0, -2)], [(2, 4)]] =
+    [[(0, 4)], [(1, 4)], [(2, 4)]] := by decide
+
+example : symmetric (1000 : Int) 0 [[(0, 4), (1, -2), (2, 1)], [(1, 4), (0, -2)], [(2, -4), (0, 1)]] =
+    [[(0, 4), (1, -2), (2, 1)], [(1, 4), (0, -2)], [(2, -4), (0, 1)]] := by decide
+
+end Examples
+
+/- OPEN (not proved): none — every target of C14 is proved above. -/
+
 end Raptor.C14
